@@ -25,3 +25,63 @@ Definition flate_stage (zenc : list N -> list N) (zopen : list N -> option rstre
 
 (* the predictor is absent or PredictorNo *)
 Definition no_predictor (pm : parms) : Prop := p_pred pm = None \/ p_pred pm = Some 1.
+
+(* ------------------------------------------------------------------ pipelines as lists of (name, parms)
+   StreamDict.FilterPipeline is a list of PDFFilter{Name, DecodeParms}; the same name may occur several
+   times with different parameters.  Encode and Decode construct one filter per STAGE from that stage's
+   own DecodeParms (filter.NewFilter(f.Name, parmsForFilter(f.DecodeParms))). *)
+Inductive fname := FAHx | FRL | FA85 | FLZW | FFlate.
+Definition fspec := (fname * parms)%type.
+
+(* the external codecs *)
+Record codecs := {
+  c_a85enc : list N -> list N;  c_a85open : list N -> rstream;
+  c_lzwenc : bool -> list N -> list N;  c_lzwopen : bool -> list N -> rstream;
+  c_zenc : list N -> list N;  c_zopen : list N -> option rstream }.
+
+(* codec contracts, per (name, parms): what was encoded under pm decodes under the same pm *)
+Definition codecs_ok (c : codecs) : Prop :=
+  (forall x, bytes x -> bytes (c_a85enc c x) /\ c_a85open c (c_a85enc c x) = (x, REof)) /\
+  (forall pm x, bytes x -> bytes (c_lzwenc c (lzw_early pm) x) /\
+                c_lzwopen c (lzw_early pm) (c_lzwenc c (lzw_early pm) x) = (x, REof)) /\
+  (forall x, bytes x -> bytes (c_zenc c x) /\ c_zopen c (c_zenc c x) = Some (x, REof)).
+
+(* filter.NewFilter(name, parms) as a stage *)
+Definition spec_stage (c : codecs) (f : fspec) : stage :=
+  match fst f with
+  | FAHx => ahx_stage
+  | FRL => rl_stage
+  | FA85 => a85_stage (c_a85enc c) (c_a85open c)
+  | FLZW => lzw_stage (c_lzwenc c) (c_lzwopen c) (snd f)
+  | FFlate => flate_stage (c_zenc c) (c_zopen c) (snd f)
+  end.
+
+(* StreamDict.Encode / Decode of a pipeline given as (name, parms) list: every stage uses its own parms *)
+Definition spec_encode (c : codecs) (specs : list fspec) (x : list N) : option (list N) :=
+  pipe_encode (map (spec_stage c) specs) x.
+Definition spec_decode (c : codecs) (specs : list fspec) (raw : list N) (maxLen mdb : Z) : dres :=
+  pipe_decode (map (spec_stage c) specs) raw maxLen mdb.
+
+(* parameter sets for which Encode is the inverse of Decode (see the two predictor findings) *)
+Definition spec_accepted (f : fspec) : Prop :=
+  match fst f with FLZW | FFlate => no_predictor (snd f) | _ => True end.
+
+(* NOT the code: an encoder that constructs one filter per filter NAME (the last stage with that name
+   wins, as a cache filled while encoding from the last stage to the first would do).  Only used to
+   state that per-stage parameters matter (C15_name_cached_encoder_refuted). *)
+Definition fname_eqb (a b : fname) : bool :=
+  match a, b with FAHx, FAHx | FRL, FRL | FA85, FA85 | FLZW, FLZW | FFlate, FFlate => true | _, _ => false end.
+Fixpoint last_parms (n : fname) (specs : list fspec) (dflt : parms) : parms :=
+  match specs with
+  | [] => dflt
+  | f :: rest => last_parms n rest (if fname_eqb (fst f) n then snd f else dflt)
+  end.
+Fixpoint spec_encode_cached (c : codecs) (specs : list fspec) (x : list N) : option (list N) :=
+  match specs with
+  | [] => Some x
+  | f :: rest =>
+    match spec_encode_cached c rest x with
+    | Some y => s_enc (spec_stage c (fst f, last_parms (fst f) rest (snd f))) y
+    | None => None
+    end
+  end.
